@@ -218,4 +218,6 @@ CORPUS = [
     B("b-r7-quat-log-clamped-acos", SO3, "        theta = 2 * ca.acos(q[0])\n        A = SERIES[\"x/sin(x)\"](theta / 2)\n        omega = q[1:4] * A * 2", "        theta = 2 * ca.acos(ca.fmin(q[0], 1))\n        A = SERIES[\"x/sin(x)\"](theta / 2)\n        omega = q[1:4] * A * 2", ["C03"],
       "a clamp that never acts on the normalised scalar part, sign flip kept"),
     M("m-r7-quat-log-clamp-no-flip", SO3, "        q = ca.if_else(q[0] < 0, -q, q)  # q and -q are the same rotation\n        theta = 2 * ca.acos(q[0])", "        theta = 2 * ca.acos(ca.fmin(ca.fabs(q[0]), 1))", ["C03"], "principal angle kept, vector part not flipped for q0 < 0"),
+    B("b-r7-deriv-falling-factorial", BEZ, "        for j in range(0, m):\n            D = (self.n - j) * ca.horzcat(\n                *[D[:, i + 1] - D[:, i] for i in range(self.n - j)]\n            )\n        return Bezier(D / self.T**m, self.T)", "        for j in range(0, m):\n            D = ca.horzcat(*[D[:, i + 1] - D[:, i] for i in range(self.n - j)])\n        gain = math.factorial(self.n) // math.factorial(self.n - m) if m <= self.n else 0\n        return Bezier(gain * D / self.T**m, self.T)", ["C18"], "m-th difference scaled once by n!/(n-m)! (math.factorial must be evaluated, not reported as raising)"),
+    M("m-r7-deriv-binomial-gain", BEZ, "        for j in range(0, m):\n            D = (self.n - j) * ca.horzcat(\n                *[D[:, i + 1] - D[:, i] for i in range(self.n - j)]\n            )\n        return Bezier(D / self.T**m, self.T)", "        for j in range(0, m):\n            D = ca.horzcat(*[D[:, i + 1] - D[:, i] for i in range(self.n - j)])\n        gain = math.comb(self.n, m)\n        return Bezier(gain * D / self.T**m, self.T)", ["C18"], "gain C(n, m): right for m <= 1, too small by m! beyond"),
 ]
